@@ -87,6 +87,19 @@ pub fn build(tree: &Tree) -> Result<G, GameError> {
 }
 
 impl Tree {
+    /// the same game with every chance weight multiplied by 2^e (exact in binary floating point, subnormal results
+    /// included): the probabilities - weight / total - are unchanged
+    pub fn scale_weights(&self, e: i32) -> Tree {
+        match self {
+            Tree::T { .. } => self.clone(),
+            Tree::C { ci, kids } => Tree::C {
+                ci: ci.clone(),
+                kids: kids.iter().map(|k| CKid { w: Num::F(k.w.f() * 2f64.powi(e / 2) * 2f64.powi(e - e / 2)), t: k.t.scale_weights(e) }).collect(),
+            },
+            Tree::P { pl, info, kids } => Tree::P { pl: *pl, info: info.clone(), kids: kids.iter().map(|k| PKid { a: k.a.clone(), t: k.t.scale_weights(e) }).collect() },
+        }
+    }
+
     pub fn count(&self) -> usize {
         match self {
             Tree::T { .. } => 1,
